@@ -3,4 +3,4 @@ from harness import pipeline, level2
 
 
 def units(prop):
-    return [pipeline.level1_unit(prop), level2.level2_unit(prop)]
+    return [pipeline.level1_unit(prop), level2.level2_unit(prop), level2.pair_unit(prop)]
